@@ -1,7 +1,7 @@
 """Engine A: lock-depth typestate (C14; feeds C13)."""
 import collections
-from .frontend import walk, children, strip, Ext
-from .expr import canon
+from .frontend import walk, children, strip, strip_parens, Ext
+from .expr import canon, int_value, is_null
 
 LO, HI = -3, 6
 
@@ -14,6 +14,7 @@ class LockAnalysis:
         self.prog = prog
         self.summary = {k: None for k in prog.funcs}     # None = no exit reached yet
         self.intended = {}                               # key -> single int used by callers
+        self.cond = {}                                   # key -> (delta if it returns NULL/false, delta if non-NULL/true)
         self.external = collections.Counter()
         self.indirect_resolved = 0
         self._node_calls = {}
@@ -40,64 +41,217 @@ class LockAnalysis:
             return {1} if m == 'Q_MUTEX_ENTER' else ({-1} if m == 'Q_MUTEX_LEAVE' else {0})
         total = {0}
         for call in self.node_calls(f, node):
-            alts = set()
-            cands = self.prog.callees(f.unit, call)
-            fn0 = strip(children(call)[0])
-            if count and fn0.get('kind') == 'MemberExpr':
-                if any(not isinstance(c, Ext) for c in cands):
-                    self.indirect_resolved += 1
-            for c in cands:
-                if isinstance(c, Ext):
-                    if count and fn0.get('kind') != 'DeclRefExpr' or (count and (fn0.get('_ref') or ('',))[0] != 'fn'):
-                        self.external[c.desc] += 1
-                    alts.add(0)
-                    continue
-                if c.key in self.intended:
-                    alts.add(self.intended[c.key])
-                    continue
-                s = self.summary[c.key]
-                if s is None:
-                    continue
-                alts |= s
+            alts = self._call_effect(f, call, count)
             if not alts:
                 return set()
             total = {a + b for a in total for b in alts}
         return total
 
-    def analyse(self, f, entry_depth=0, want_states=False, count=False):
-        """Forward propagation of depth sets. Returns (exit node id -> depth set[, states])."""
+    # -- return-value-correlated ("conditional lock") helpers -------------------------------------------------
+    def _cond_call(self, f, call):
+        """(d_null, d_nonnull) if every candidate callee of this call is a helper whose lock effect is determined by
+        whether it returns NULL/false or not (e.g. `lock and look up: returns the element with the lock held, or NULL
+        with the lock released`)."""
+        cands = self.prog.callees(f.unit, call)
+        if not cands or any(isinstance(c, Ext) or c.key not in self.cond for c in cands):
+            return None
+        vals = {self.cond[c.key] for c in cands}
+        return vals.pop() if len(vals) == 1 else None
+
+    def _node_plan(self, f, node):
+        """For a node: (list of conditional calls as (call, bound variable or '@'), other calls)."""
+        k = ('plan', f.key, node.id)
+        c = self._node_calls.get(k)
+        if c is not None:
+            return c
+        conds, others = [], []
+        if not self.cond:
+            return (conds, others)
+        if node.kind != 'macro' and isinstance(node.ast, dict):
+            bound = {}
+            a = node.ast
+            if a.get('kind') == 'VarDecl':
+                from .expr import var_init
+                i = var_init(a)
+                if i is not None and strip(i).get('kind') == 'CallExpr':
+                    bound[id(strip(i))] = a.get('name')
+            for x in walk(a):
+                if x.get('kind') == 'BinaryOperator' and x.get('opcode') == '=':
+                    l, r = strip(children(x)[0]), strip(children(x)[1])
+                    if l.get('kind') == 'DeclRefExpr' and r.get('kind') == 'CallExpr':
+                        bound[id(r)] = (l.get('referencedDecl') or {}).get('name')
+            for call in self.node_calls(f, node):
+                cc = self._cond_call(f, call)
+                if cc is not None:
+                    conds.append((call, bound.get(id(call), '@%d' % node.id), cc))
+                else:
+                    others.append(call)
+        c = (conds, others)
+        self._node_calls[k] = c
+        return c
+
+    def _call_effect(self, f, call, count=False):
+        alts = set()
+        cands = self.prog.callees(f.unit, call)
+        fn0 = strip(children(call)[0])
+        if count and fn0.get('kind') == 'MemberExpr':
+            if any(not isinstance(c, Ext) for c in cands):
+                self.indirect_resolved += 1
+        for c in cands:
+            if isinstance(c, Ext):
+                if count and fn0.get('kind') != 'DeclRefExpr' or (count and (fn0.get('_ref') or ('',))[0] != 'fn'):
+                    self.external[c.desc] += 1
+                alts.add(0)
+                continue
+            if c.key in self.cond:
+                alts |= set(self.cond[c.key])
+                continue
+            if c.key in self.intended:
+                alts.add(self.intended[c.key])
+                continue
+            s = self.summary[c.key]
+            if s is None:
+                continue
+            alts |= s
+        return alts
+
+    @staticmethod
+    def _null_test(e):
+        """(tested thing, null_on_true): thing is a variable name or a CallExpr node"""
+        s = strip_parens(e)
+        k = s.get('kind')
+        if k == 'UnaryOperator' and s.get('opcode') == '!':
+            t = LockAnalysis._null_test(children(s)[0])
+            return (t[0], not t[1]) if t else None
+        if k == 'BinaryOperator' and s.get('opcode') in ('==', '!='):
+            a, b = children(s)
+            for x, y in ((a, b), (b, a)):
+                if is_null(y) or int_value(y) == 0:
+                    t = LockAnalysis._null_test(x)
+                    if t:
+                        # `x == NULL` is true when x is NULL; `(!x) == 0` is true when x is non-NULL
+                        return (t[0], (s.get('opcode') == '==') != t[1])
+            return None
+        s0 = strip(s)
+        if s0.get('kind') == 'DeclRefExpr':
+            return ((s0.get('referencedDecl') or {}).get('name'), False)
+        if s0.get('kind') == 'CallExpr':
+            return (s0, False)
+        if s0.get('kind') == 'BinaryOperator' and s0.get('opcode') == '=':
+            l = strip(children(s0)[0])
+            if l.get('kind') == 'DeclRefExpr':
+                return ((l.get('referencedDecl') or {}).get('name'), False)
+        return None
+
+    def analyse(self, f, entry_depth=0, want_states=False, count=False, want_classes=False):
+        """Forward propagation of (depth, facts) pairs; facts record, for locals bound to the result of a conditional
+        helper (and for returned locals), whether they are NULL/false on this path.  Returns (exit node id -> depth set[,
+        states as depth sets])."""
+        from .dataflow import node_defs
         cfg = f.cfg
-        state = {}
-        state[cfg.entry.id] = {entry_depth}
+        names = {}
+        for x in walk(f.decl):
+            if x.get('kind') in ('VarDecl', 'ParmVarDecl'):
+                names[x.get('id')] = x.get('name')
+        # locals worth tracking: returned variables and variables bound to conditional-helper results
+        tracked = set()
+        for r in cfg.returns():
+            if isinstance(r.ast, dict) and children(r.ast):
+                e = strip(children(r.ast)[0])
+                if e.get('kind') == 'DeclRefExpr':
+                    tracked.add((e.get('referencedDecl') or {}).get('name'))
+        for n in cfg.nodes:
+            for (_c, v, _cc) in self._node_plan(f, n)[0]:
+                tracked.add(v)
+        start = (entry_depth, frozenset())
+        state = {cfg.entry.id: {start}}
         work = [cfg.entry]
         exits = collections.defaultdict(set)
+        exit_classes = collections.defaultdict(set)
         overflow = False
         while work:
             n = work.pop()
             ins = state[n.id]
-            eff = self.effect(f, n, count)
+            conds, others = self._node_plan(f, n) if self.cond else ([], None)
+            if n.kind == 'macro' or not conds:
+                eff = [(b, ()) for b in self.effect(f, n, count)]
+            else:
+                base = {0}
+                for call in others:
+                    alts = self._call_effect(f, call, count)
+                    if not alts:
+                        base = set()
+                        break
+                    base = {a + b for a in base for b in alts}
+                eff = [(b, ()) for b in base]
+                for (call, v, (d0, d1)) in conds:
+                    eff = [(b + d, fs + ((v, cls),)) for (b, fs) in eff for (d, cls) in ((d0, 'N'), (d1, 'NN'))]
+            killed = set()
+            if n.kind != 'macro' and isinstance(n.ast, dict):
+                killed = {names.get(d[0]) for d in node_defs(n)} - {None}
             outs = set()
-            for a in ins:
-                for b in eff:
+            for (a, facts) in ins:
+                if killed:
+                    facts = frozenset(x for x in facts if x[0] not in killed)
+                for (b, newf) in eff:
                     d = a + b
                     if LO <= d <= HI:
-                        outs.add(d)
+                        fs = facts
+                        if newf:
+                            fs = frozenset([x for x in facts if x[0] not in {y[0] for y in newf}] + list(newf))
+                        outs.add((d, fs))
                     else:
                         overflow = True
-            for (s, _lab) in n.succs:
+            test = None
+            if n.kind == 'cond' and isinstance(n.ast, dict) and tracked:
+                test = self._null_test(n.ast)
+                if test and isinstance(test[0], dict):
+                    test = ('@%d' % n.id, test[1]) if any(test[0] is c for (c, _v, _cc) in conds) else None
+                if test and test[0] not in tracked:
+                    test = None
+            for (s, lab) in n.succs:
+                o2 = outs
+                if test and lab in ('T', 'F'):
+                    cls = 'N' if (lab == 'T') == test[1] else 'NN'
+                    o2 = set()
+                    for (d, fs) in outs:
+                        known = [x[1] for x in fs if x[0] == test[0]]
+                        if known and known[0] != cls:
+                            continue
+                        o2.add((d, fs if known else frozenset(list(fs) + [(test[0], cls)])))
                 if s is cfg.exit:
-                    exits[n.id] |= outs
+                    exits[n.id] |= {d for (d, _fs) in o2}
+                    if want_classes:
+                        rc = '?'
+                        if isinstance(n.ast, dict) and n.ast.get('kind') == 'ReturnStmt' and children(n.ast):
+                            e = strip(children(n.ast)[0])
+                            if is_null(e) or int_value(e) == 0:
+                                rc = 'N'
+                            elif isinstance(int_value(e), int):
+                                rc = 'NN'
+                            elif e.get('kind') == 'DeclRefExpr':
+                                rc = ('var', (e.get('referencedDecl') or {}).get('name'))
+                            elif e.get('kind') == 'CallExpr' and any(e is c for (c, _v, _cc) in conds):
+                                rc = ('var', '@%d' % n.id)
+                        for (d, fs) in o2:
+                            c = rc
+                            if isinstance(rc, tuple):
+                                known = [x[1] for x in fs if x[0] == rc[1]]
+                                c = known[0] if known else '?'
+                            exit_classes[n.id].add((d, c))
                     continue
                 cur = state.get(s.id)
                 if cur is None:
-                    state[s.id] = set(outs)
-                    if outs:
+                    state[s.id] = set(o2)
+                    if o2:
                         work.append(s)
-                elif not outs <= cur:
-                    cur |= outs
+                elif not o2 <= cur:
+                    cur |= o2
                     work.append(s)
+        if want_classes:
+            return exit_classes
         if want_states:
-            return exits, state, overflow
+            return exits, {k: {d for (d, _fs) in v} for k, v in state.items()}, overflow
         return exits, overflow
 
     def _fixpoint(self):
@@ -113,11 +267,26 @@ class LockAnalysis:
                 if s and s != self.summary[key]:
                     self.summary[key] = s
                     changed = True
+            # a static helper whose exits disagree, but exactly along "returns NULL/false" versus "returns something":
+            # its callers see the effect that matches how they branch on the result
+            for key, f in self.prog.funcs.items():
+                s = self.summary[key]
+                if s and len(s) > 1 and f.static and key not in self.cond and key not in self.intended:
+                    ec = self.analyse(f, want_classes=True)
+                    byc = collections.defaultdict(set)
+                    for v in ec.values():
+                        for (d, c) in v:
+                            byc[c].add(d)
+                    if '?' not in byc and len(byc.get('N', ())) == 1 and len(byc.get('NN', ())) == 1:
+                        self.cond[key] = (next(iter(byc['N'])), next(iter(byc['NN'])))
+                        changed = True
+                        for kk in [kk for kk in self._node_calls if kk[0] == 'plan']:
+                            del self._node_calls[kk]
             # root-cause policy: a callee with a multi-valued summary is reported itself;
             # its callers see the effect of the majority of its exits
             for key, f in self.prog.funcs.items():
                 s = self.summary[key]
-                if s and len(s) > 1 and key not in self.intended:
+                if s and len(s) > 1 and key not in self.intended and key not in self.cond:
                     exits, _ = self.analyse(f)
                     cnt = collections.Counter()
                     for v in exits.values():
@@ -226,6 +395,9 @@ def rule_c14(prog, rep, la=None):
             nexits += 1
             if is_prim:
                 ok = depths in ({1}, {-1})
+            elif f.static and key in la.cond:
+                # conditional-lock helper: the depth at its exits is a function of whether it returns NULL/false
+                ok = depths <= set(la.cond[key])
             elif f.static:
                 # helper: single-valued on all exits (compared across exits below)
                 ok = len(depths) <= 1
@@ -244,7 +416,7 @@ def rule_c14(prog, rep, la=None):
                               % (sorted(depths), node.line), path=la.witness(f, nid, bad[0]))
         if f.static and not is_prim:
             s = la.summary.get(key)
-            if s and len(s) > 1:
+            if s and len(s) > 1 and key not in la.cond:
                 # exits individually single-valued but disagreeing with each other
                 if not any(fd.function == f.name and fd.rule == 'A-exit' for fd in rep.findings):
                     rep.violation('A-exit', f, f.line, 'helper-multivalued',
@@ -253,6 +425,7 @@ def rule_c14(prog, rep, la=None):
     rep.notes['functions_analysed'] = nfun
     rep.notes['exits_checked'] = nexits
     rep.notes['lock_primitives'] = sorted(prim)
+    rep.notes['conditional_lock_helpers'] = {str(k): {'returns_null_or_false': v[0], 'returns_value': v[1]} for k, v in la.cond.items()}
     rep.notes['fixpoint_iterations'] = la.iterations
     rep.notes['indirect_calls_resolved'] = la.indirect_resolved
     rep.notes['external_callees_assumed_depth_neutral'] = dict(la.external.most_common(40))
@@ -295,6 +468,7 @@ def rule_c14(prog, rep, la=None):
                                   '%s as expanded in %s does not %s the pthread mutex'
                                   % (m, f.name, 'acquire' if m == 'Q_MUTEX_ENTER' else 'release'))
     _macro_paths(prog, rep, la)
+    rule_recursive(prog, rep)
     return la
 
 
@@ -365,3 +539,42 @@ def exit_construct(f, node):
     elif isinstance(node.ast, dict) and node.ast.get('_implicit'):
         val = '<end>'
     return '#%d:%s' % (idx, val)
+
+
+def rule_recursive(prog, rep, rid='A-recursive'):
+    """A container that exposes its lock to the user (a `lock` method in its method table) is meant to be used as
+    `c->lock(c); c->op(c) ...; c->unlock(c)`, and several operations call other locking operations: every such nesting
+    re-acquires the mutex.  The acquire macro force-releases a mutex it cannot get after a bounded number of attempts, which
+    is harmless for a recursive mutex held by the same thread but really releases a plain one.  So the mutex of every such
+    container is created recursive: in the expansion of the creation macro the branch that sets PTHREAD_MUTEX_RECURSIVE is
+    taken (its condition is a constant after preprocessing)."""
+    from .expr import eval_int
+    rep.rule(rid, 'the mutex of every container that exposes lock()/unlock() is created recursive (nested acquisition by the '
+                  'holder is part of the documented use)')
+    exposed = {k[0] for k in prog.mtab if k[1] == 'lock'}
+    for f in sorted(prog.funcs.values(), key=lambda x: (x.relfile, x.line or 0)):
+        if f.body is None:
+            continue
+        sites = [x for x in walk(f.body) if x.get('kind') == 'IfStmt' and x.get('_macro') == 'Q_MUTEX_NEW' and any(
+            y.get('kind') == 'CallExpr' and prog.callee_name(y) == 'pthread_mutexattr_settype' for y in walk(children(x)[1]))]
+        if not sites:
+            continue
+        rec = f.unit.resolve_typedef(f.rettype)[0] if f.rettype else None
+        if rec not in exposed:
+            continue
+        for x in sites:
+            rep.instance(rid)
+            c = children(x)[0]
+            v = eval_int(c, {})
+            if v is None:
+                sc = strip(c)
+                if sc.get('kind') == 'BinaryOperator' and sc.get('opcode') == '==':
+                    a, b = (int_value(y) for y in children(sc))
+                    if isinstance(a, int) and isinstance(b, int):
+                        v = int(a == b)
+            ok = bool(v)
+            rep.oblige(rid, ok, {'constructor': f.name, 'record': rec, 'recursive_branch_condition': canon(c)})
+            if not ok:
+                rep.violation(rid, f, x.get('_line'), 'mutex-kind', 'the mutex of %s is created non-recursive (%s): the documented '
+                              'lock(); ...; unlock() bracket around other operations re-acquires it, and the acquire macro then '
+                              'force-releases the caller\'s own lock after its retry limit' % (rec, canon(c)))
